@@ -8,7 +8,8 @@
      wrap w z  : z mod 2^w
    Every theorem quantifies over all widths 1..64 and all operands. *)
 From Coq Require Import ZArith.
-From CrabV Require Import Num.Wrapint Num.WrapintSound Scalar.WrappedItv Scalar.WrappedItvSound.
+From CrabV Require Import Num.Wrapint Num.WrapintSound Scalar.WrappedItv Scalar.WrappedItvSound
+  Scalar.WrappedItvEdge.
 Local Open Scope Z_scope.
 
 (* ---- constructors, conversions from and to big integers *)
@@ -253,14 +254,32 @@ Proof. exact lshr_sound. Qed.
 Theorem C13_wv_ashr : forall w a x v kk, iwf w a -> iwf w x -> gamma w a v -> gamma w x kk -> wn kk < 64 ->
   exists q r, wi_ashr a x = Some q /\ iwf w q /\ washr v kk = Some r /\ gamma w q r.
 Proof. exact ashr_sound. Qed.
-(* full statement for Shl; proved for amounts 1..63 (amount 0 goes through Trunc(bitwidth)) *)
+(* Shl for every amount 0..63 (amount 0 goes through Trunc(bitwidth): repair fixes/wrapint-10) *)
 Definition C13_wv_shl_statement : Prop :=
   forall w a x v kk, iwf w a -> iwf w x -> gamma w a v -> gamma w x kk -> 0 <= wn kk < 64 ->
   exists q r, wi_shl a x = Some q /\ iwf w q /\ wshl v kk = Some r /\ gamma w q r.
-Theorem C13_wv_shl_partial : forall w a x v kk, iwf w a -> iwf w x -> gamma w a v -> gamma w x kk ->
-  1 <= wn kk < 64 ->
+Theorem C13_wv_shl : C13_wv_shl_statement.
+Proof. exact shl_full. Qed.
+(* Shl by 0 is the identity on an interval that is neither bottom nor top *)
+Theorem C13_wv_shl_zero : forall w a, range_nt w a -> wi_shl_k a 0 = Some (wi_mk (wstart a) (wend a)).
+Proof. exact shl_k_zero_exact. Qed.
+(* amounts of 64 or more shift an uint64_t by 64 bits or more (undefined behaviour, None in the
+   model); a w-bit amount is always below 64 when w <= 6 *)
+Theorem C13_wv_lshr_amount_64 : forall w a x kk, range_nt w a -> iwf w x -> is_singleton x = true ->
+  gamma w x kk -> 64 <= wn kk -> wn (wstart a) <= wn (wend a) -> wi_lshr a x = None.
+Proof. exact lshr_amount_64_error. Qed.
+Theorem C13_wv_ashr_amount_64 : forall w a x kk, range_nt w a -> iwf w x -> is_singleton x = true ->
+  gamma w x kk -> 64 <= wn kk -> cross_north w a = false -> wi_ashr a x = None.
+Proof. exact ashr_amount_64_error. Qed.
+Theorem C13_wv_lshr_small_width : forall w a x v kk, w <= 6 -> iwf w a -> iwf w x -> gamma w a v -> gamma w x kk ->
+  exists q r, wi_lshr a x = Some q /\ iwf w q /\ wlshr v kk = Some r /\ gamma w q r.
+Proof. exact lshr_sound_w6. Qed.
+Theorem C13_wv_ashr_small_width : forall w a x v kk, w <= 6 -> iwf w a -> iwf w x -> gamma w a v -> gamma w x kk ->
+  exists q r, wi_ashr a x = Some q /\ iwf w q /\ washr v kk = Some r /\ gamma w q r.
+Proof. exact ashr_sound_w6. Qed.
+Theorem C13_wv_shl_small_width : forall w a x v kk, w <= 6 -> iwf w a -> iwf w x -> gamma w a v -> gamma w x kk ->
   exists q r, wi_shl a x = Some q /\ iwf w q /\ wshl v kk = Some r /\ gamma w q r.
-Proof. exact shl_sound. Qed.
+Proof. exact shl_sound_w6. Qed.
 
 (* ---- casts *)
 Theorem C13_wv_zext : forall w i k v, iwf w i -> is_top i = false -> gamma w i v -> 0 <= k -> w + k <= 64 ->
@@ -269,13 +288,22 @@ Proof. exact zext_sound. Qed.
 Theorem C13_wv_sext : forall w i k v, iwf w i -> is_top i = false -> gamma w i v -> 0 <= k -> w + k <= 64 ->
   exists q r, wi_sext i k = Some q /\ iwf (w + k) q /\ wsext v k = Some r /\ gamma (w + k) q r.
 Proof. exact sext_sound. Qed.
-(* full statement for Trunc; proved for a strict truncation (bits_to_keep < bitwidth) *)
+(* ZExt / SExt of top: unsigned_split / signed_split call get_bitwidth, a CRAB_ERROR on top
+   (wrapped_interval_domain::apply tests is_top before it calls them) *)
+Theorem C13_wv_zext_top : forall i k, is_bottom i = false -> is_top i = true -> wi_zext i k = None.
+Proof. exact zext_top_error. Qed.
+Theorem C13_wv_sext_top : forall i k, is_bottom i = false -> is_top i = true -> wi_sext i k = None.
+Proof. exact sext_top_error. Qed.
+(* Trunc for every bits_to_keep in 1..bitwidth (bits_to_keep = bitwidth: repair fixes/wrapint-10) *)
 Definition C13_wv_trunc_statement : Prop :=
   forall w i k v, iwf w i -> gamma w i v -> 1 <= k <= w -> k < 64 ->
   exists q r, wi_trunc i k = Some q /\ wkeep_lower v k = Some r /\ gamma k q r.
-Theorem C13_wv_trunc_partial : forall w i k v, iwf w i -> gamma w i v -> 1 <= k < w ->
+Theorem C13_wv_trunc_statement_holds : C13_wv_trunc_statement.
+Proof. exact trunc_statement_holds. Qed.
+(* the same without k < 64 (Trunc(64) of a 64-bit interval) and with the bitwidth of the result *)
+Theorem C13_wv_trunc : forall w i k v, iwf w i -> gamma w i v -> 1 <= k <= w ->
   exists q r, wi_trunc i k = Some q /\ iwf k q /\ wkeep_lower v k = Some r /\ gamma k q r.
-Proof. exact trunc_sound. Qed.
+Proof. exact trunc_full. Qed.
 
 (* ---- conversion to a signed interval, half lines, removal of a bound *)
 Theorem C13_wv_to_interval : forall w i v, iwf w i -> gamma w i v ->
@@ -366,10 +394,19 @@ Print Assumptions C13_wv_udiv.
 Print Assumptions C13_wv_default_ops.
 Print Assumptions C13_wv_lshr.
 Print Assumptions C13_wv_ashr.
-Print Assumptions C13_wv_shl_partial.
+Print Assumptions C13_wv_shl.
+Print Assumptions C13_wv_shl_zero.
+Print Assumptions C13_wv_lshr_amount_64.
+Print Assumptions C13_wv_ashr_amount_64.
+Print Assumptions C13_wv_lshr_small_width.
+Print Assumptions C13_wv_ashr_small_width.
+Print Assumptions C13_wv_shl_small_width.
 Print Assumptions C13_wv_zext.
 Print Assumptions C13_wv_sext.
-Print Assumptions C13_wv_trunc_partial.
+Print Assumptions C13_wv_zext_top.
+Print Assumptions C13_wv_sext_top.
+Print Assumptions C13_wv_trunc_statement_holds.
+Print Assumptions C13_wv_trunc.
 Print Assumptions C13_wv_to_interval.
 Print Assumptions C13_wv_lower_half_line_signed.
 Print Assumptions C13_wv_lower_half_line_unsigned.
